@@ -13,6 +13,11 @@
 #[macro_use]
 #[path = "/verif/harness/common/prelude.rs"]
 pub mod prelude;
+// (never compiled: lets lib/bcv/shadow.py find the cuf1! invocations of the instruction model, which is copied into the
+// shadow crate as src/verif_arch.rs and is not a harness file)
+#[cfg(any())]
+#[path = "/verif/harness/aes/arm_model.rs"]
+mod scan_arm_model;
 use prelude::*;
 use core::mem::{size_of, MaybeUninit};
 
